@@ -59,6 +59,10 @@ PROPS = {
              {"checks": 6000, "timeout": 300},
              {"checks": 20000, "shards": 16, "timeout": 1800},
              assumptions=COMMON_ASSUME),
+    "C06": P("TestC06", "exploration",
+             {"checks": 6000, "timeout": 300},
+             {"checks": 25000, "shards": 16, "timeout": 1800},
+             assumptions=COMMON_ASSUME),
 }
 
 TRUST = "Trusted base: Go runtime, net/http, compress/*, google.golang.org/protobuf, rapid, and the harness's own reference wire layer as the reading of the protocol specs. Generated search: absence of violations is evidence over the explored cases only."
@@ -122,6 +126,11 @@ META = {
     "C19": {
         "technique": 'property-based testing (rapid): generated GET requests over methods of every idempotency level, codecs with and without stable encoding, and a metamorphic limit triple (observed URL length -1/0/+1); the GET/POST decision rule of the statement and an independent Connect-GET query decoder as oracle',
         "level_text": 'Generated exploration of inbound Connect GET handling (405+Allow vs decode-equals-POST) and of the outbound GET/POST decision toward Connect backends, with the URL-length limit placed exactly at the boundary learned from a first run.',
+        "level_note": TRUST,
+    },
+    "C06": {
+        "technique": 'property-based testing (rapid): generated route tables (template grammar) and request paths through the real ServeHTTP; independent three-valued reference matcher over the raw path as oracle, plus metamorphic re-registration in permuted order',
+        "level_text": 'Generated exploration of overlapping route tables and of request paths with every reserved character in several valid escapings, structural mutations and RPC-style paths; dispatch target, captured values, 404/405+Allow, literal precedence and order independence are asserted against a reference matcher written from http.proto.',
         "level_note": TRUST,
     },
 }
